@@ -771,8 +771,21 @@ func (r *runner) fail(out *outcome, at int, clause string, obs, want seenT) {
 }
 
 func brief(s seenT) string {
+	extra := ""
+	if len(s.Frames) > 12 {
+		extra = fmt.Sprintf(" (+%d more frames)", len(s.Frames)-12)
+		s.Frames = s.Frames[:12]
+	}
 	b, _ := json.Marshal(s)
-	return string(b)
+	return string(b) + extra
+}
+
+// short cuts an observation down to what a report can carry.
+func short(s seenT) seenT {
+	if len(s.Frames) > 40 {
+		s.Frames = s.Frames[:40]
+	}
+	return s
 }
 
 // run executes one script (with its alternatives) on site st (nil: a private site, started and stopped here).
@@ -1285,7 +1298,7 @@ func TestCx13WsBridge(t *testing.T) {
 			}
 			anyFail = true
 			res.Add(hx.Mismatch{Key: "C13/wsbridge/" + o.clause + "/" + c.key(), What: o.what, Case: map[string]interface{}{"ws": g.alts},
-				Expected: o.want, Observed: map[string]interface{}{"seen": o.obs, "events": showEvents(o.events, 60)}})
+				Expected: o.want, Observed: map[string]interface{}{"seen": short(o.obs), "events": showEvents(o.events, 60)}})
 			continue // (the trace of an exchange that is reported is not handed on)
 		}
 		if corrupted[i] || o.drift {
